@@ -37,7 +37,7 @@ fn sp_op(rng: &mut Rng, sp: &il::Scalar, fp: &il::Scalar, data: &[il::Scalar]) -
         let from = e.bits();
         if from == to { e } else if from < to { E::zext(to, e).unwrap() } else { E::trun(to, e).unwrap() }
     };
-    match rng.below(14) {
+    match rng.below(21) {
         0 | 1 => il::Operation::assign(sp.clone(), E::sub(spx(), k(slot * rng.range(1, 4))).unwrap()),
         2 | 3 => il::Operation::assign(sp.clone(), E::add(spx(), k(slot * rng.range(1, 4))).unwrap()),
         4 => il::Operation::store(spx(), dw(E::Scalar(d), w)),
@@ -49,6 +49,15 @@ fn sp_op(rng: &mut Rng, sp: &il::Scalar, fp: &il::Scalar, data: &[il::Scalar]) -
         10 => il::Operation::assign(sp.clone(), E::add(E::sub(spx(), k(16)).unwrap(), k(16)).unwrap()),
         11 => il::Operation::assign(sp.clone(), E::sub(spx(), dw(E::Scalar(d), w)).unwrap()), // alloca
         12 => il::Operation::assign(d.clone(), dw(spx(), d.bits())),
+        // forms that are NOT "stack pointer plus/minus constants": a number must not be reported
+        13 => il::Operation::assign(sp.clone(), E::sub(k(slot * rng.range(1, 64)), spx()).unwrap()), // c - sp
+        14 => il::Operation::assign(sp.clone(), k(0x8000 + slot * rng.below(8))), // absolute
+        15 => il::Operation::assign(sp.clone(), E::add(spx(), spx()).unwrap()), // sp + sp
+        16 => il::Operation::assign(sp.clone(), E::add(k(0x4000), k(slot * rng.below(16))).unwrap()), // constant expression
+        17 => il::Operation::assign(sp.clone(), E::add(E::sub(k(8), E::add(spx(), k(4)).unwrap()).unwrap(), k(12)).unwrap()),
+        // additive forms with the constant on the left / nested
+        18 => il::Operation::assign(sp.clone(), E::add(k(slot * rng.range(1, 4)), spx()).unwrap()),
+        19 => il::Operation::assign(sp.clone(), E::sub(E::add(k(slot), E::sub(spx(), k(2 * slot)).unwrap()).unwrap(), k(slot)).unwrap()),
         _ => il::Operation::nop(),
     }
 }
